@@ -425,4 +425,11 @@ func checkC07(c *Ctx) {
 		})
 	}
 	c.runRefCases("heap", progs, inputs, shapes, nil, nil)
+	// values handed to a library constructor are stored like values handed to a constructor
+	// written in Zn (其头部 = 头部 keeps a copy): the object and the variable stay independent
+	c.runHand("native-constructor", []handCase{
+		{"http-response-header-dictionary", "导入《@样品库》\n令头 = 【“A” = “1”】\n令应 = （新建HTTP响应：200、“ok”、头）\n头#“B” = “2”\n应之头部#“C” = “3”\n输出【头，应之头部】\n", `list[dict["A"=text("1"),"B"=text("2")],dict["A"=text("1"),"C"=text("3")]]`},
+		{"http-response-header-two-objects", "导入《@样品库》\n令头 = 【“A” = 【1】】\n令甲 = （新建HTTP响应：200、“ok”、头）\n令乙 = （新建HTTP响应：201、“ok”、头）\n以甲之头部#“A”（后增：2）\n输出【头，甲之头部，乙之头部】\n", `list[dict["A"=list[num(1)]],dict["A"=list[num(1),num(2)]],dict["A"=list[num(1)]]]`},
+		{"http-response-content-list", "导入《@样品库》\n令体 = 【1，2】\n令应 = （新建HTTP响应：200、体）\n以体（后增：3）\n输出【体，应之内容】\n", `list[list[num(1),num(2),num(3)],list[num(1),num(2)]]|list[list[num(1),num(2),num(3)],text("[1,2]")]`},
+	})
 }
